@@ -75,6 +75,19 @@ func c15(r *rep.Run) {
 	for _, t := range g3.UpTo([]term.Ty{X}, aliasMax) {
 		progs = append(progs, t)
 	}
+	// registered variables that share their name with an operator or keyword
+	{
+		named := &term.Alphabet{Leaves: map[term.Ty][]*term.Term{X: {
+			{K: term.KVar, Name: "version", Ty: X}, {K: term.KVar, Name: "mod", Ty: X}, {K: term.KVar, Name: "in", Ty: X}, {K: term.KVar, Name: "date", Ty: X}, {K: term.KConst, Val: int64(1), Lit: "1", Ty: X}}}}
+		for _, op := range []string{"+", "<", "&&"} {
+			named.Ops = append(named.Ops, sig(op, X, X, X))
+		}
+		named.Ops = append(named.Ops, sig("!", X, X), sig("f", X, X), sig("g", X, X, X))
+		gn := term.NewGen(named)
+		for _, t := range gn.UpTo([]term.Ty{X}, 4) {
+			progs = append(progs, t)
+		}
+	}
 	// list literals of every shape next to every kind of neighbour
 	for _, l := range []*term.Term{term.Const([]int64{}), term.Const([]int64{-1}), term.Const([]int64{-1, -2}), term.Const([]int64{3, -2, 7}), term.Const([]string{"s", "t u"}), term.Const([]string{"-1", "a"})} {
 		a := term.Var("a", X)
@@ -93,7 +106,7 @@ func c15(r *rep.Run) {
 		h.Register("g", func(a []interface{}) (interface{}, error) { return a[len(a)-1], nil })
 		h.Register("h", func(a []interface{}) (interface{}, error) { return int64(7), nil })
 	}
-	vars := []term.VarDecl{{Name: "a", Ty: X}, {Name: "b", Ty: X}}
+	vars := []term.VarDecl{{Name: "a", Ty: X}, {Name: "b", Ty: X}, {Name: "version", Ty: X}, {Name: "mod", Ty: X}, {Name: "in", Ty: X}, {Name: "date", Ty: X}}
 	bindings := []c15fetch{{int64(3), int64(2)}, {true, false}, {int64(0), int64(5)}, {"s", int64(1)}}
 	var renderings, nontrivial, evals int64
 	done := r.ParallelFor(len(progs), func(w, i int) {
